@@ -1,9 +1,10 @@
 SPECIFICATION Spec
 CONSTANTS
     Catalogue <- McCatalogue
+    SelIds = {1, 2, 3, 4, 5, 6, 7}
     MaxSegs = 3
     Dev = {}
     FieldBytes <- McFieldBytes
-    NormOf <- McNormOf
+    NormTable <- McNormTable
 INVARIANTS RefinesFields RefinesCount RefinesDocNums RefinesTerms RefinesPostings RefinesStored RefinesStats RefinesDocValues
 CHECK_DEADLOCK FALSE
